@@ -1,6 +1,10 @@
-"""Runner of check C09 (fresh interpreter): same executor as C07 (harness/impl/c07_exec.py)."""
+"""Runner of check C09 (fresh interpreter): the executor shared with C07 (harness/impl/c07_exec.py) plus the C09-only
+extensions of c09_ext_run.py (further transformation methods / option values / segment states, line recording of the
+anchored methods, log of the option values every call received)."""
 import sys
 import c07_exec
+import c09_ext_run
 
 if __name__ == '__main__':
-    c07_exec.main(sys.argv)
+    c09_ext_run.install(c07_exec)
+    c09_ext_run.main(c07_exec, sys.argv)
